@@ -32,23 +32,23 @@ def slotOfThread (trackSlots : List Nat) (t : Nat) : Nat :=
 
 /-! ### std::partition (libstdc++ bidirectional algorithm) on an array of slots -/
 
+/-- `while (first != last && pred(*first)) ++first` (fuel `n`) -/
+def pFwd (pred : Nat → Bool) (a : Array Nat) (hi : Nat) : Nat → Nat → Nat
+  | 0, lo => lo
+  | n + 1, lo => if lo < hi && pred (a.getD lo 0) then pFwd pred a hi n (lo + 1) else lo
+
+/-- `while (first != last && !pred(*last)) --last` (fuel `n`) -/
+def pBwd (pred : Nat → Bool) (a : Array Nat) (lo : Nat) : Nat → Nat → Nat
+  | 0, h => h
+  | n + 1, h => if lo < h && !pred (a.getD h 0) then pBwd pred a lo n (h - 1) else h
+
 /-- one outer iteration; `lo`/`hi` are `first`/`last`; fuel bounds the loop -/
 def partitionLoop (pred : Nat → Bool) : Nat → Array Nat → Nat → Nat → Array Nat
   | 0, a, _, _ => a
   | fuel + 1, a, lo, hi =>
-    -- advance first while pred holds
-    let rec fwd (n lo : Nat) : Nat :=
-      match n with
-      | 0 => lo
-      | n + 1 => if lo < hi && pred (a.getD lo 0) then fwd n (lo + 1) else lo
-    let lo' := fwd a.size lo
+    let lo' := pFwd pred a hi a.size lo
     if lo' ≥ hi then a else
-    let hi1 := hi - 1
-    let rec bwd (n h : Nat) : Nat :=
-      match n with
-      | 0 => h
-      | n + 1 => if lo' < h && !pred (a.getD h 0) then bwd n (h - 1) else h
-    let hi' := bwd a.size hi1
+    let hi' := pBwd pred a lo' a.size (hi - 1)
     if lo' ≥ hi' then a else
     let x := a.getD lo' 0
     let y := a.getD hi' 0
